@@ -788,7 +788,7 @@ fn mkdir_all_body_p(scen: u64, plan: [u8; 8], fixed_errno: i32) {
 macro_rules! mk_h {
     ($name:ident, $scen:expr) => {
         #[kani::proof]
-        #[kani::unwind(8)]
+        #[kani::unwind(10)]
         #[kani::stub(crate::resolvers::Resolver::resolve_partial, k_resolve_partial)]
         #[kani::stub(crate::handle::Handle::reopen, crate::handle::Handle::k_handle_reopen)]
         #[kani::stub(<std::os::unix::io::BorrowedFd<'static> as crate::utils::FdExt>::as_unsafe_path_unchecked, k_unsafe_path_unchecked)]
@@ -805,7 +805,7 @@ macro_rules! mk_h {
 macro_rules! mk_p {
     ($name:ident, $plan:expr, $errno:expr) => {
         #[kani::proof]
-        #[kani::unwind(8)]
+        #[kani::unwind(10)]
         #[kani::stub(crate::resolvers::Resolver::resolve_partial, k_resolve_partial)]
         #[kani::stub(crate::handle::Handle::reopen, crate::handle::Handle::k_handle_reopen)]
         #[kani::stub(<std::os::unix::io::BorrowedFd<'static> as crate::utils::FdExt>::as_unsafe_path_unchecked, k_unsafe_path_unchecked)]
